@@ -148,7 +148,8 @@ class VHDX(AlignedStream):
                 # Seek into the bitmap to where we are relative in the cluster
                 self.fh.seek((sector_bitmap_entry.file_offset_mb * MB) + byte_idx)
                 # Read the bitmap for the amount of sectors we're interested in, rounded up
-                sector_bitmap = self.fh.read((read_count + 8 - 1) // 8)
+                # The first sector can start anywhere in the first byte
+                sector_bitmap = self.fh.read((bit_idx + read_count + 8 - 1) // 8)
 
                 # Calculate runs from the bitmap and read from the correct source
                 relative_sector = 0
@@ -293,18 +294,28 @@ class MetadataTable:
 
 
 def _iter_partial_runs(bitmap: bytes, start_idx: int, length: int) -> Iterator[tuple[int, int]]:
-    current_type = (bitmap[0] & (1 << start_idx)) >> start_idx
+    """Iterate runs of absent (0) and present (1) sectors in a sector bitmap.
+
+    Args:
+        bitmap: The sector bitmap bytes, starting at the byte that holds the first sector.
+        start_idx: The bit index in the first byte of the first sector.
+        length: The number of sectors (bits) to iterate.
+    """
+    current_type = (bitmap[0] >> start_idx) & 1
     current_count = 0
 
     for byte in bitmap:
+        if length <= 0:
+            break
+
+        # The number of bits of this byte that are part of the requested range
+        max_count = min(length, 8 - start_idx)
+
         if (current_type, byte) == (0, 0) or (current_type, byte) == (1, 0xFF):
-            max_count = min(length, 8 - start_idx)
             current_count += max_count
-            length -= max_count
-            start_idx = 0
         else:
-            for bit_idx in range(start_idx, min(length, 8)):
-                sector_type = (byte & (1 << bit_idx)) >> bit_idx
+            for bit_idx in range(start_idx, start_idx + max_count):
+                sector_type = (byte >> bit_idx) & 1
 
                 if sector_type == current_type:
                     current_count += 1
@@ -313,7 +324,8 @@ def _iter_partial_runs(bitmap: bytes, start_idx: int, length: int) -> Iterator[t
                     current_type = sector_type
                     current_count = 1
 
-                length -= 1
+        length -= max_count
+        start_idx = 0
 
     if current_count:
         yield (current_type, current_count)
